@@ -73,7 +73,7 @@ Section MapJobs.
   Lemma map_DInv : DInv s'.
   Proof.
     pose proof D as [d_jkeys0 d_ukeys0 d_upos0 d_uorder0 d_jrange0 d_edges0 d_enodup0 d_jobs0 d_staged0 d_root0 d_gcontig0 d_gkeys0 d_jgroup0
-                     d_bfresh0 d_gbatch0 d_ancgrp0].
+                     d_bfresh0 d_gbatch0 d_ancgrp0 d_ufirst0].
     constructor.
     - unfold Kjobs, Kjobs_list. rewrite Hjobs, map_map.
       replace (map (fun x => jk (h x)) (jobs s)) with (map jk (jobs s)); [exact d_jkeys0|].
@@ -110,5 +110,6 @@ Section MapJobs.
       apply in_map_iff in Hin. destruct Hin as (g0 & Hk & Hg0). unfold gk in Hk. injection Hk as K1 K2.
       rewrite mj_find_batch_none, <- K1. apply (d_gbatch0 g0 Hg0).
     - rewrite Hanc. intros r Hr. rewrite mj_find_group_none. apply (d_ancgrp0 r Hr).
+    - rewrite Hupd. assumption.
   Qed.
 End MapJobs.
